@@ -16,8 +16,8 @@ ASSUMPTIONS = ["bits: to_bits(n) -> from_bits -> val() on the real code for widt
                "values mod-1, mod, mod+1, 0, 2^n-1, random: run-time accept/reject = (value < mod for every field); with error checking off the "
                "emitted system with the bit wires fixed is satisfiable iff that relation holds (exhaustive over p = 97; recorded witness on the "
                "large fields); model-compared (result, wire expression, constraints) through the K|..|U line of Driver/ProtoStruct.lean"]
-PARTIAL = ["secret round trip: proved/validated at value level for bounded-integer leaves; PackBool on the boolean type raises "
-           "(finding C16-pack-bool); PackIntMod.unpack performs no range check on the bits produced by pack (finding C16-unpack-unchecked)"]
+PARTIAL = ["secret round trip: proved/validated at value level for bounded-integer leaves; PackBool on the boolean type is the identity "
+           "(C16_pack_bool_lcb; was finding C16-pack-bool, repaired); PackIntMod.unpack performs no range check on the bits produced by pack (finding C16-unpack-unchecked)"]
 LEVELS = "VS"
 P97 = 97
 
